@@ -34,6 +34,56 @@ from typing import Dict, List, Optional, Set, Tuple
 
 _FUNC = (ast.FunctionDef, ast.AsyncFunctionDef)
 _ANCHOR_CACHE: Optional[Set[str]] = None
+_WHOLE_CACHE: Optional[Set[str]] = None
+
+
+def whole_string_names() -> Set[str]:
+    """function names the rules look functions up by: string arguments of the model's lookup functions
+    (`find_function("update_exiting")`, `find_method(..)`, `method_calls(node, "add_block")` ..) and strings
+    compared with a callee / method name (`c.func.attr == "extract_region"`, `.name in ("a", "b")`)"""
+    global _WHOLE_CACHE
+    if _WHOLE_CACHE is not None:
+        return _WHOLE_CACHE
+    out: Set[str] = set()
+    root = os.path.dirname(os.path.abspath(__file__))
+    lookups = {"function", "find_function", "find_method", "fn", "_fn", "_scfg_method", "method_calls", "calls_named", "get"}
+
+    def strs(e):
+        if isinstance(e, ast.Constant) and isinstance(e.value, str):
+            return [e.value]
+        if isinstance(e, (ast.Tuple, ast.Set, ast.List)):
+            return [x.value for x in e.elts if isinstance(x, ast.Constant) and isinstance(x.value, str)]
+        return []
+
+    for dp, dn, fns in os.walk(root):
+        dn[:] = [d for d in dn if d != "__pycache__"]
+        for fn in fns:
+            if not fn.endswith(".py") or fn in ("mutants.py", "inline.py"):
+                continue
+            try:
+                tree = ast.parse(open(os.path.join(dp, fn), encoding="utf-8").read())
+            except SyntaxError:
+                continue
+            for n in ast.walk(tree):
+                if isinstance(n, ast.Call):
+                    f = n.func
+                    nm = f.attr if isinstance(f, ast.Attribute) else (f.id if isinstance(f, ast.Name) else "")
+                    if nm in lookups:
+                        for a in n.args:
+                            for v in strs(a):
+                                out.update(p_ for p_ in v.split(".") if re.fullmatch(r"[A-Za-z_][A-Za-z0-9_]*", p_))
+                elif isinstance(n, ast.Compare) and len(n.ops) == 1 and isinstance(n.ops[0], (ast.Eq, ast.NotEq, ast.In, ast.NotIn)):
+                    sides = [n.left, n.comparators[0]]
+                    txt = [ast.unparse(x) for x in sides]
+                    for i_ in (0, 1):
+                        if txt[i_].endswith((".attr", ".name", "[-1]", ".id", "mname", "fname")):
+                            for v in strs(sides[1 - i_]):
+                                if re.fullmatch(r"[A-Za-z_][A-Za-z0-9_]*", v):
+                                    out.add(v)
+                elif isinstance(n, ast.Subscript) and isinstance(n.slice, ast.Constant) and isinstance(n.slice.value, str) and ast.unparse(n.value).endswith("methods"):
+                    out.add(n.slice.value)
+    _WHOLE_CACHE = out
+    return out
 
 
 def anchor_names() -> Set[str]:
@@ -318,6 +368,20 @@ def _expand(h: _Helper, call: ast.Call, caller: ast.AST, targets: Optional[ast.A
     elif stmts and isinstance(stmts[-1], ast.Return):
         ret_expr = stmts[-1].value
         stmts = stmts[:-1]
+    # `T = H(<expr>, ..)` where H re-binds its parameter P and returns something rooted at P
+    # (`block = block.replace_..(); return block.replace_..()`): P is read as T, so that the object keeps one
+    # name through the caller
+    if want == "assign" and isinstance(targets, ast.Name) and ret_expr is not None and not early:
+        root = ret_expr
+        while isinstance(root, (ast.Call, ast.Attribute, ast.Subscript)):
+            root = root.func if isinstance(root, ast.Call) else root.value
+        if isinstance(root, ast.Name) and root.id in rename and root.id in binding and rename[root.id] == root.id + suffix and targets.id not in stored:
+            newn = targets.id
+            old_tmp = rename[root.id]
+            rename[root.id] = newn
+            for st_ in pre:
+                if isinstance(st_, ast.Assign) and isinstance(st_.targets[0], ast.Name) and st_.targets[0].id == old_tmp:
+                    st_.targets[0].id = newn
     # returned locals take the names of the assignment targets
     if want == "assign" and targets is not None and ret_expr is not None:
         pairs: List[Tuple[str, str]] = []
@@ -654,7 +718,9 @@ def expand_forwarders(trees: Dict[str, ast.Module]) -> List[str]:
         if method_count[name] != 1 or name.startswith("__"):
             continue
         r = _forwarder(fn)
-        if r is not None:
+        if r is not None and not _private(r[0]):
+            # (a method that forwards to a private helper is not a wrapper of a public primitive: the helper is
+            # dissolved into it instead)
             fwd[name] = (fn, r[0], r[1])
     if not fwd:
         return notes
@@ -710,7 +776,7 @@ def normalise_names(trees: Dict[str, ast.Module], anchors: Set[str]) -> List[str
             if isinstance(n, _FUNC):
                 defined.add(n.name)
     by_stem: Dict[str, List[str]] = {}
-    for a in anchors:
+    for a in (anchors & whole_string_names()):
         st_ = a.strip("_")
         # only unmistakable function names: several words, or long
         if len(st_) >= 5 and ("_" in st_ or len(st_) >= 7):
